@@ -25,6 +25,13 @@ namespace TonVerif.Py
   | none => (self, none)
   | some a => k a
 
+/-- a call on a LOCAL object (`builder = Builder()...; builder.store_uint(..)`): `k` gets the local's new state and the value;
+if the call raised, the method ends with `self` as it is. -/
+@[inline] def bindL {σ τ α β : Type} (r : τ × Option α) (self : σ) (k : τ → α → σ × Option β) : σ × Option β :=
+  match r.2 with
+  | none => (self, none)
+  | some a => k r.1 a
+
 /-- a mutating call on the sub-object held in an attribute: `set` writes the sub-object's new state back. -/
 @[inline] def zoom {σ τ α : Type} (r : τ × Option α) (set : τ → σ) : σ × Option α := (set r.1, r.2)
 
